@@ -7,6 +7,71 @@ import "strings"
 func init() {
 	verifRegister("C10_tokens", verifH_C10_tokens)
 	verifRegister("C10_text", verifH_C10_text)
+	verifRegister("C10_literals", verifH_C10_literals)
+}
+
+// printable ASCII except the quote and the backslash
+var verifLiteralBytes = func() (l []int) {
+	for c := 0x20; c < 0x7f; c++ {
+		if c != '\'' && c != '\\' {
+			l = append(l, c)
+		}
+	}
+	return
+}()
+
+// H10-literals: a quoted string literal of n arbitrary printable bytes - which
+// may spell a keyword, an operator or a number - is a string literal with
+// exactly that text wherever the grammar takes a literal, in any statement.
+func verifH_C10_literals() {
+	n := verifParam("len", 4)
+	b := make([]byte, n)
+	for i := range b {
+		b[i] = byte(verifIntFrom("c", verifLiteralBytes))
+	}
+	lit := string(b)
+	switch verifChoice("stmt", 3) {
+	case 0:
+		stmt, err := verifParseText("INSERT INTO t VALUES (1, '" + lit + "', 'x')")
+		verifAssert(err == nil, "parses")
+		is, ok := stmt.(InsertStatement)
+		verifAssert(ok, "statement-kind")
+		if ok {
+			tv, _ := is.QueryExpression.(TableValueConstructor)
+			verifAssert(len(tv.TableValueConstructorList) == 1 && len(tv.TableValueConstructorList[0].RowValueConstructorList) == 3, "values-row-width")
+			if len(tv.TableValueConstructorList) == 1 && len(tv.TableValueConstructorList[0].RowValueConstructorList) == 3 {
+				v, isStr := tv.TableValueConstructorList[0].RowValueConstructorList[1].(string)
+				verifAssert(isStr && v == lit, "literal-value")
+			}
+		}
+	case 1:
+		stmt, err := verifParseText("SELECT a FROM t WHERE s = '" + lit + "' AND a = 1")
+		verifAssert(err == nil, "parses")
+		sel, ok := stmt.(Select)
+		verifAssert(ok, "statement-kind")
+		if ok {
+			w, _ := sel.WhereClause.(WhereClause)
+			bt, isBT := w.SearchCondition.(BooleanTerm)
+			verifAssert(isBT, "where-shape")
+			if isBT {
+				v, isStr := bt.LHS.RHS.(string)
+				verifAssert(isStr && v == lit, "literal-value")
+			}
+		}
+	default:
+		stmt, err := verifParseText("UPDATE t SET s = '" + lit + "', a = 2 WHERE a = 1")
+		verifAssert(err == nil, "parses")
+		us, ok := stmt.(UpdateStatementSearched)
+		verifAssert(ok, "statement-kind")
+		if ok {
+			verifAssert(len(us.Set) == 2, "set-list-length")
+			if len(us.Set) == 2 {
+				v, isStr := us.Set[0].UpdateSource.(string)
+				verifAssert(isStr && v == lit, "literal-value")
+			}
+		}
+	}
+	verifReach("end")
 }
 
 // ---------------------------------------------------------------- structural equality of statements
